@@ -30,18 +30,19 @@ Proof.
   destruct (op =? acl_op_execute); [destruct (tfun t)|]; rewrite ?andb_true_r, ?andb_false_r; reflexivity.
 Qed.
 
-Lemma sat_query_link c S sysr q :
+Lemma sat_query_link c S srules sysr q :
   qout q = is_allowed_gen c S sysr (qws q) (qop q) (qres q) (qflds q) (qroles q) ->
+  (forall t, find_type S (qws q) (qres q) = Some t -> srules (qws q) t = all_rules S (qws q)) ->
   (is_nil (qroles q) = false ->
    expand_gen (c_aliased c) (c_closure c) S (qws q) (qroles q) = Some (spec_roles S (qws q) (qroles q))) ->
   (forall t fs, find_type S (qws q) (qres q) = Some t -> tflds t = Some fs ->
      NoDup fs /\ fs <> [] /\
      (c_chkfield c = true \/ rules_wf (qop q) t (spec_roles S (qws q) (qroles q)) fs (all_rules S (qws q)))) ->
-  sat_query S sysr q = true.
+  sat_query S srules sysr q = true.
 Proof.
-  intros Ho Hx Hw. unfold sat_query. unfold is_allowed_gen in Ho.
+  intros Ho Hr Hx Hw. unfold sat_query. unfold is_allowed_gen in Ho.
   destruct (find_type S (qws q) (qres q)) as [t|] eqn:F.
-  - rewrite (valid_iff S _ _ _ _ _ t F). destruct (validate (qop q) t (qflds q)) as [e|] eqn:V.
+  - rewrite (Hr t eq_refl). rewrite (valid_iff S _ _ _ _ _ t F). destruct (validate (qop q) t (qflds q)) as [e|] eqn:V.
     + rewrite Ho. reflexivity.
     + rewrite sfrom_nil in Ho. destruct (is_nil (qroles q)) eqn:Nl; cbn [negb].
       * rewrite Ho. reflexivity.
@@ -135,4 +136,17 @@ Proof. rewrite C. exact rra_closure_exact. Qed.
 Lemma reach_inherits S w r x : reach S w r x -> inherits_star S w r x.
 Proof.
   intros H. induction H as [a b H| |a b c _ IH1 _ IH2]; [apply rt_step; apply inh_edges_step; exact H|apply rt_refl|eapply rt_trans; eassumption].
+Qed.
+
+(* GRANT ALL / REVOKE ALL: the code takes the operation set of the first matching type; when all
+   types the filter matches (among those the workspace sees) have the same applicable operations
+   this is "every operation applicable to the resource" - the oracle's reading *)
+Lemma eff_rule_uniform S d t : dall d = true -> In t (vis_types S (dws d)) -> fmatch (rflt (drl d)) t = true ->
+  (forall t', In t' (vis_types S (dws d)) -> fmatch (rflt (drl d)) t' = true -> taclops t' = taclops t) ->
+  rops (eff_rule S d) = taclops t.
+Proof.
+  intros Ha Hin Hm Hu. unfold eff_rule. rewrite Ha. cbn [rops].
+  destruct (find (fmatch (rflt (drl d))) (vis_types S (dws d))) as [t0|] eqn:F.
+  - apply find_some in F. destruct F as [F1 F2]. apply Hu; assumption.
+  - exfalso. pose proof (find_none _ _ F t Hin) as X. cbn in X. congruence.
 Qed.
